@@ -5,8 +5,10 @@ import (
 	"os"
 	"os/exec"
 	"path/filepath"
+	"runtime"
 	"sort"
 	"strings"
+	"sync"
 
 	"verif/checker/internal/core"
 	"verif/checker/internal/rules"
@@ -28,6 +30,12 @@ func thorough(p *core.Prog, pr *rules.Property, c *core.Ctx, verif, repo string,
 		c.Unk("config", "GOARCH=386/load", "", "the repository does not load under GOARCH=386: "+err.Error())
 		*out = *c.Finish(nil)
 	} else {
+		if p.InlineLevel > 0 {
+			// the verdict was reached on an inlining normal form: analyse the same form of the second configuration
+			if q, err := p386.WithInlinedSet(p.InlineLevel, p.InlineOnly); err == nil {
+				p386 = q
+			}
+		}
 		c2 := core.NewCtx(p386, pr.ID)
 		func() {
 			defer func() {
@@ -109,20 +117,49 @@ func thorough(p *core.Prog, pr *rules.Property, c *core.Ctx, verif, repo string,
 		return b
 	}
 	details := map[string]string{}
-	for _, m := range append(patches, seeds...) {
-		st, d := run(m)
-		switch st {
-		case "alarm":
-			caught = append(caught, name(m))
-			details[name(m)] = d
-		case "silent":
-			missed = append(missed, name(m))
-		default:
-			skipped = append(skipped, name(m)+": "+d)
-		}
+	// one analysis process per variant, several at a time
+	type result struct{ st, d string }
+	all := append(append(append([]string{}, patches...), seeds...), oks...)
+	results := make([]result, len(all))
+	workers := runtime.NumCPU() / 2
+	if workers < 1 {
+		workers = 1
 	}
-	for _, m := range oks {
-		st, d := run(m)
+	if workers > 8 {
+		workers = 8
+	}
+	var wg sync.WaitGroup
+	jobs := make(chan int)
+	for w := 0; w < workers; w++ {
+		wg.Add(1)
+		go func() {
+			defer wg.Done()
+			for i := range jobs {
+				st, d := run(all[i])
+				results[i] = result{st, d}
+			}
+		}()
+	}
+	for i := range all {
+		jobs <- i
+	}
+	close(jobs)
+	wg.Wait()
+	nbad := len(patches) + len(seeds)
+	for i, m := range all {
+		st, d := results[i].st, results[i].d
+		if i < nbad {
+			switch st {
+			case "alarm":
+				caught = append(caught, name(m))
+				details[name(m)] = d
+			case "silent":
+				missed = append(missed, name(m))
+			default:
+				skipped = append(skipped, name(m)+": "+d)
+			}
+			continue
+		}
 		switch st {
 		case "alarm":
 			okAlarm = append(okAlarm, name(m)+": "+d)
@@ -133,13 +170,13 @@ func thorough(p *core.Prog, pr *rules.Property, c *core.Ctx, verif, repo string,
 		}
 	}
 	res["variants"] = map[string]interface{}{
-		"bad_variants_reported":       caught,
-		"bad_variants_missed":         missed,
-		"refactor_variants_silent":    okSilent,
-		"refactor_variants_alarmed":   okAlarm,
-		"skipped":                     skipped,
+		"bad_variants_reported":        caught,
+		"bad_variants_missed":          missed,
+		"refactor_variants_silent":     okSilent,
+		"refactor_variants_alarmed":    okAlarm,
+		"skipped":                      skipped,
 		"first_report_per_bad_variant": details,
-		"note":                        "variants are analysed statically on scratch copies of the current working tree; they are a self-test of the rules, not part of the verdict on the tree under test",
+		"note":                         "variants are analysed statically on scratch copies of the current working tree; they are a self-test of the rules, not part of the verdict on the tree under test",
 	}
 	fmt.Printf("  thorough: GOARCH=386 re-analysis done; variants: %d bad reported, %d bad missed, %d refactors silent, %d refactors alarmed, %d skipped\n", len(caught), len(missed), len(okSilent), len(okAlarm), len(skipped))
 	for _, m := range missed {
